@@ -165,6 +165,12 @@ func contractEffects(fn *ssa.Function, fc *FuncContract, pkg *PkgInfo) ModSet {
 			ms.prefixes["Map."] = true
 			continue
 		}
+		if me.Kind == "call" && me.Name == "stream" {
+			ms.prefixes["Io.out"] = true
+			ms.prefixes["Io.outlen"] = true
+			ms.prefixes["Io.pos"] = true
+			continue
+		}
 		if me.Kind == "field" && me.Args[0].Kind == "id" && me.Args[0].Name == "ghost" && pkg != nil {
 			own := false
 			if pkg.Contracts != nil {
@@ -716,6 +722,22 @@ func (x *Exec) havocModifies(env *CEnv, st *State, pre *State, me *CE) {
 			if strings.HasPrefix(k, "Map.") {
 				st.H[k] = x.vc.fresh("mod."+k, st.H[k].S)
 			}
+		}
+		return
+	}
+	if me.Kind == "call" && me.Name == "stream" && len(me.Args) == 1 {
+		// "modifies stream(w)": the ghost byte stream (and position) of one reader/writer value
+		save := env.st
+		env.st = pre
+		w := env.eval(me.Args[0])
+		env.st = save
+		if w.K != KIface {
+			unsupported("stream() of a non-interface value")
+		}
+		for _, cn := range []string{"Io.out", "Io.outlen", "Io.pos"} {
+			c := x.ioComp(st, cn, cn == "Io.out")
+			_, inner, _ := arrSorts(c.S)
+			st.H[cn] = Store(c, w.X, x.vc.fresh("mod."+cn, inner))
 		}
 		return
 	}
